@@ -232,6 +232,13 @@ def run(ctx):
         except RuntimeError:
             ctx.out_of_domain("generator gave up")
             continue
+        if rng.random() < 0.1:
+            # a loop with many iterations whose body mixes statements that use the loop variable with ones that do not
+            v = "lv%d" % rng.randint(0, 99)
+            n_it = rng.choice([33, 40, 64, 100])
+            body = ["Sgate(0.5, 0) | 0", "Rgate(0.25) | %s" % v, "Dgate(k=%s) | [1, %s + 200]" % (v, v), "Vac | 300"]
+            rng.shuffle(body)
+            base = base.rstrip("\n") + "\nfor int %s in 0:%d\n" % (v, n_it) + "".join(rng.choice(["    ", "\t"]) + b + "\n" for b in body[: rng.randint(2, 4)])
         check_base(ctx, base, rng, nv)
 
 
